@@ -91,7 +91,7 @@ int main(void) {
   while (getline(&line, &cap, stdin) > 0) {
     pid_t pid = fork();
     if (pid < 0) { reply_fmt("E", 2); continue; }
-    if (pid == 0) { alarm(90); serve(line); _exit(0); }
+    if (pid == 0) { alarm(400); serve(line); _exit(0); }
     int st = 0;
     while (waitpid(pid, &st, 0) < 0 && errno == EINTR) {}
     if (WIFSIGNALED(st) && WTERMSIG(st) == SIGALRM) reply_fmt("T", 0);
